@@ -125,6 +125,7 @@ def execute(env, profile, seed, tier, replay=None):
     """Generate-and-execute (or replay) one run. Returns a JSON-able result."""
     run = Run(env, profile, seed, tier, replay)
     err = None
+    aborted = None
     try:
         if replay is not None:
             run.params = dict(replay["params"])
@@ -156,6 +157,11 @@ def execute(env, profile, seed, tier, replay=None):
                 pass
     except HarnessError as ex:
         err = "HarnessError: %s" % ex
+    except Exception:
+        # an exception in the harness' own generator / model code (not an oracle verdict): this run is aborted and
+        # reported as such; the check tolerates a few of them (see cli) rather than failing as a whole
+        import traceback
+        aborted = traceback.format_exc()
     finally:
         run.close()
     res = {
@@ -180,4 +186,7 @@ def execute(env, profile, seed, tier, replay=None):
         res["obslog"] = run.scratch["obslog"]
     if err:
         res["harness_error"] = err
+    if aborted:
+        res["aborted"] = aborted
+        res["violations"] = []
     return res
